@@ -1,22 +1,36 @@
-(* line driver for the C11 model.
-   mode "model" (default): one scenario per line, blank-separated fields
-       <tree> <end> <msgs> <fatalsize>
-     tree : F plain FileSink | R / r RotatingFileSink with a size limit (asks size() before each write)
-            | D RotatingFileSink without size limit | o any other handler | ( ... ) nested pipeline
+(* line driver for the C11 model.  One scenario per line, blank-separated fields
+       <tree> <end> <msgs> <fatalsize>            (mode oracle: ... | <files>)
+     tree : file sinks  F plain FileSink | R / r RotatingFileSink with a size limit (asks size() before
+                        each write) | D RotatingFileSink without size limit | B FileSink on a device
+                        that keeps nothing (/dev/full)
+            filters     g debug messages only | n everything but fatal | e even message ids only
+                        | x odd message ids only | l warning and above (LevelFilter) | y debug only
+                        (CategoryFilter)
+            o any other handler | ( ... ) nested pipeline
      end  : fatal (qFatal after the messages, then abort) | kill (SIGKILL after the messages)
-     msgs : - or comma separated <t><size>[*<count>], t in d w c i (qDebug qWarning qCritical qInfo);
-            size = bytes of the message text; a record is the text plus a newline
-     output: for every file sink in depth-first order the record ids in its file at process death,
-             as ranges a-b joined by ',', sinks separated by ';'
-   mode "oracle": line = <k>;<ranges of file 1>;<ranges of file 2>;...  -> 1 iff every file holds
-       exactly the records 0..k (prop_c11_b)
+     msgs : - or comma separated <t><size>[*<count>], t in d w c i (qDebug qWarning qCritical qInfo)
+            or m (the type of message number i is "diwc"[i mod 4]); size = bytes of the message text;
+            a record is the text plus a newline; ids count from 0, the fatal message gets the next id
+     output, for every file sink in depth-first order, sinks separated by ';':
+            record ids as ranges a-b joined by ',' ; X for a B sink (no file)
+   mode "model" (default): the files at process death according to the model with the translated source
+   mode "expected": what the property demands after qFatal (the specification [expected])
+   mode "oracle": the scenario fields, then '|', then the files found: 1 iff prop_c11_b
    mode "cfg": prints cfg_goodb and flush_on_fatal of the translated source *)
 open Fatal_model
 let rec pos_of_int n = if n = 1 then XH else if n land 1 = 1 then XI (pos_of_int (n lsr 1)) else XO (pos_of_int (n lsr 1))
 let n_of_int n = if n <= 0 then N0 else Npos (pos_of_int n)
 let rec int_of_pos = function XH -> 1 | XO p -> 2 * int_of_pos p | XI p -> 2 * int_of_pos p + 1
 let int_of_n = function N0 -> 0 | Npos p -> int_of_pos p
-let parse_tree (s : string) : tree list =
+let flt_of c : (mtype * rec0) -> bool = fun (ty, r) ->
+  match c with
+  | 'g' | 'y' -> ty = Debug
+  | 'n' -> ty <> Fatal
+  | 'e' -> int_of_n r.rid land 1 = 0
+  | 'x' -> int_of_n r.rid land 1 = 1
+  | 'l' -> (ty = Warning || ty = Critical || ty = Fatal)
+  | _ -> true
+let parse_tree (s : string) : tree =
   let next = ref 0 in
   let pos = ref 0 in
   let rec items () =
@@ -25,21 +39,25 @@ let parse_tree (s : string) : tree list =
     | ')' -> []
     | c -> incr pos;
       let it = (match c with
-        | 'F' | 'D' -> let i = !next in incr next; TSink (fresh (n_of_int i) false)
-        | 'R' | 'r' -> let i = !next in incr next; TSink (fresh (n_of_int i) true)
+        | 'F' | 'D' -> let i = !next in incr next; TSink (fresh (n_of_int i) false false)
+        | 'R' | 'r' -> let i = !next in incr next; TSink (fresh (n_of_int i) true false)
+        | 'B' -> let i = !next in incr next; TSink (fresh (n_of_int i) false true)
         | '(' -> let l = items () in (if !pos < String.length s && s.[!pos] = ')' then incr pos); TPipe l
+        | 'g' | 'n' | 'e' | 'x' | 'l' | 'y' -> TFilter (flt_of c)
         | _ -> TOther) in
       it :: items () in
-  items ()
-let ty_of = function 'd' -> Debug | 'w' -> Warning | 'c' -> Critical | _ -> Info
+  TPipe (items ())
+let ty_of i = function 'd' -> Debug | 'w' -> Warning | 'c' -> Critical
+  | 'm' -> (match i land 3 with 0 -> Debug | 1 -> Info | 2 -> Warning | _ -> Critical) | _ -> Info
 let parse_msgs (s : string) : (mtype * int) list =
   if s = "-" || s = "" then [] else
-  List.concat_map (fun it ->
-    let t = ty_of it.[0] in
+  let raw = List.concat_map (fun it ->
+    let t = it.[0] in
     let body = String.sub it 1 (String.length it - 1) in
     match String.split_on_char '*' body with
     | [sz; cnt] -> List.init (int_of_string cnt) (fun _ -> (t, int_of_string sz))
-    | _ -> [(t, int_of_string body)]) (String.split_on_char ',' s)
+    | _ -> [(t, int_of_string body)]) (String.split_on_char ',' s) in
+  List.mapi (fun i (t, sz) -> (ty_of i t, sz)) raw
 let ranges (l : int list) : string =
   let b = Buffer.create 64 in
   let flush_run a z = (if Buffer.length b > 0 then Buffer.add_char b ',');
@@ -53,26 +71,27 @@ let unranges (s : string) : int list =
   List.concat_map (fun it -> match String.split_on_char '-' it with
     | [a; z] -> let a = int_of_string a and z = int_of_string z in List.init (max 0 (z - a + 1)) (fun i -> a + i)
     | _ -> [int_of_string it]) (String.split_on_char ',' s)
+let show (res : n list option list) : string =
+  String.concat ";" (List.map (function None -> "X" | Some f -> ranges (List.map int_of_n f)) res)
+let unshow (s : string) : n list option list =
+  List.map (fun f -> if f = "X" then None else Some (List.map n_of_int (unranges f))) (String.split_on_char ';' s)
 let () =
   let mode = if Array.length Sys.argv > 1 then Sys.argv.(1) else "model" in
   if mode = "cfg" then Printf.printf "cfg_good=%b flush_on_fatal=%b\n" src_cfg_good flush_on_fatal else
   try while true do
     let line = input_line stdin in
-    if mode = "oracle" then begin
-      match String.split_on_char ';' line with
-      | k :: files ->
-        let expected = List.init (int_of_string k + 1) n_of_int in
-        print_endline (if prop_c11_b expected (List.map (fun f -> List.map n_of_int (unranges f)) files) then "1" else "0")
-      | [] -> print_endline "0"
-    end else begin
-      match List.filter (fun x -> x <> "") (String.split_on_char ' ' line) with
-      | [tr; en; ms; fs] ->
-        let l = parse_tree tr in
-        let msgs = List.mapi (fun i (t, sz) -> (t, { rid = n_of_int i; rlen = n_of_int (sz + 1) })) (parse_msgs ms) in
-        let k = List.length msgs in
-        let res = if en = "kill" then run_src_kill l msgs
-                  else run_src_fatal l msgs { rid = n_of_int k; rlen = n_of_int (int_of_string fs + 1) } in
-        print_endline (String.concat ";" (List.map (fun f -> ranges (List.map int_of_n f)) res))
-      | _ -> print_endline "?"
-    end
+    let scen, files = match String.index_opt line '|' with
+      | Some i -> String.sub line 0 i, String.trim (String.sub line (i + 1) (String.length line - i - 1))
+      | None -> line, "" in
+    match List.filter (fun x -> x <> "") (String.split_on_char ' ' scen) with
+    | [tr; en; ms; fs] ->
+      let t = parse_tree tr in
+      let msgs = List.mapi (fun i (ty, sz) -> (ty, { rid = n_of_int i; rlen = n_of_int (sz + 1) })) (parse_msgs ms) in
+      let k = List.length msgs in
+      let fatal = { rid = n_of_int k; rlen = n_of_int (int_of_string fs + 1) } in
+      if mode = "oracle" then
+        print_endline (if prop_c11_b t msgs fatal (unshow files) then "1" else "0")
+      else if mode = "expected" then print_endline (show (expected_ids t msgs fatal))
+      else print_endline (show (if en = "kill" then run_src_kill t msgs else run_src_fatal t msgs fatal))
+    | _ -> print_endline "?"
   done with End_of_file -> ()
